@@ -15,7 +15,7 @@ EXPLANATION = (
     "such as (atom count, sum of character codes) ties for isomers and lets the input order leak through a stable sort; (O2) "
     "wc_similarity returns exactly 1 on the branch guarded by equality of the two normalised strings, before any fingerprint code, "
     "and both strings come from normalize_smiles of the two arguments; the benchmark normalises both sides with the same function.  "
-    "Idempotence / spelling invariance of RDKit canonicalisation and symmetry / range of fingerprint similarities are NOT decided."
+    "Idempotence / spelling invariance of RDKit canonicalisation and symmetry / range of the fingerprint functions themselves are NOT decided (O3 and O10 decide the structural part: mirrored difference lists, returned values built from bounded operations only)."
     ' (O3) the two difference lists of _get_diff_mol are filled symmetrically; (O4) the atom-map removal applied first keeps the molecule (shared with C15-Rg1/Rg2); (O5) every return of normalize_smiles is a join of recursive results or canon_smiles(...).'
     ' (O1/O5 also follow a helper that builds the normal form for normalize_smiles); (O6) nothing reachable from the comparison mutates a container shared between calls (module level, mutable default, memoised result); (O7) canon_smiles sanitises with every RDKit step.'
     ' (O8) a hand-made memo decorator on the normalisation path keys on every argument; (O9) the benchmark compares the normal forms of the same row.'
